@@ -197,6 +197,29 @@ def run(ctx):
     from .c08 import listener_table
     listener_table(ctx, program, "R15.12")
 
+    ctx.rule("R15.13", "a wait has no start-up or shutdown of its own: time_trigger 'startup' / 'shutdown' / an empty list denote no instant inside task.wait_until "
+             "(no occurrence when the wait starts, none when it ends or is cancelled), while a function's @time_trigger keeps both", floor=8)
+    wait_words_table(ctx, program, "R15.13")
+
+    ctx.rule("R15.14", "task.wait_until: None - the documented default of every trigger argument - means the trigger is absent, also when it is passed explicitly "
+             "(the legacy subsystem's signature says so; new subsystem's argument loop interpreted)", floor=3)
+    none_argument_table(ctx, program, "R15.14")
+
+    ctx.rule("R15.15", "the check of state_check_now (and the exception of a condition) does not depend on the expression naming a state variable: the state trigger's "
+             "cycle - where the expression is first evaluated - is started whether or not anything could be subscribed (must-pass-through in StateTriggerDecorator.start)", floor=2)
+    uid = "decorators/state.py::StateTriggerDecorator.start"
+    for subscribed in (True, False):
+        pol = FlowPolicy(program, may_raise_all=False, cancel=False, events=["self.dm.hass.async_create_background_task"],
+                         summaries={"super().start": lambda i, n, a, k, c, o: [(c, NONE)], "asyncio.Queue": lambda i, n, a, k, c, o: [(c, ObjV("q", "Queue"))],
+                                    "State.notify_add": lambda i, n, a, k, c, o, subscribed=subscribed: [(c, Const(subscribed))], "self._cycle": lambda i, n, a, k, c, o: [(c, Sym(("coro",)))]})
+        out = run_flow(program, uid, pol, args={"self": ObjV("self", "StateTriggerDecorator")}, heap={"self.state_trig_ident": ListV((), "set")})
+        ex = exits(out)
+        started = [sum(1 for e in c.trace if e[0] == "call" and e[1] == "self.dm.hass.async_create_background_task") for k, c, d in ex if k == "return"]
+        ctx.check(bool(started) and all(n == 1 for n in started) and len(started) == len(ex), "R15.15", uid, f"cycle started when notify_add returns {subscribed}",
+                  msg=f"StateTriggerDecorator.start with State.notify_add -> {subscribed}: the cycle task is started {started} time(s) on its exits {[d for k, c, d in ex]}: "
+                  "task.wait_until(state_trigger='True') never returns 'state' and an exception in such a condition is lost (legacy evaluates both)",
+                  key=f"cycle started subscribed={subscribed}", node=program.func(uid), rel="decorators/state.py")
+
     ctx.rule("R15.6", "legacy wait_until: a notification received during a pending state_hold is never taken for the hold's expiry (scripted histories)", floor=7)
     from .c05 import legacy_hold_rules
     legacy_hold_rules(ctx, program, "R15.6", uids=(LEGACY,))
@@ -449,3 +472,87 @@ def state_unsubscribe_table(ctx, program, rid):
                     bad = f"another queue's subscriptions changed to {other}"
         ctx.check(bool(ex1) and bad is None, rid, del_uid, f"names in the order {list(order)}", msg=f"State.notify_add/notify_del with the names {list(order)}: {bad or 'no exit'}",
                   key=f"state unsubscribe {order}", node=program.func(del_uid), rel="state.py")
+
+
+def wait_words_table(ctx, program, rid):
+    """TimeTriggerDecorator.validate, then stop() and the first step of _cycle(), interpreted for the words startup / shutdown under both kinds of manager."""
+    from ..absint import ClassV
+    V = "decorators/timing.py::TimeTriggerDecorator.validate"
+    glob = {"WaitUntilDecoratorManager": ClassV("WaitUntilDecoratorManager"), "TriggerDecorator": ClassV("TriggerDecorator"), "TimeTriggerDecorator": ClassV("TimeTriggerDecorator")}
+    for mgr in ("WaitUntilDecoratorManager", "FunctionDecoratorManager"):
+        for spec in ([], ["startup"], ["shutdown"], ["startup", "once(3:00)", "shutdown"]):
+            pol = FlowPolicy(program, may_raise_all=False, cancel=False, summaries={"super().validate": lambda i, n, a, k, c, o: [(c, NONE)]}, globals_=glob)
+            pol.loop_unroll = 4
+            heap = {"self.dm": ObjV("dm", mgr), "self.args": ListV(tuple(Const(x) for x in spec), "list"), "self.run_on_startup": Const(False), "self.run_on_shutdown": Const(False)}
+            out = run_flow(program, V, pol, args={"self": ObjV("self", "TimeTriggerDecorator")}, heap=heap)
+            ex = exits(out)
+            bad = None
+            seen = []
+            for k, c, d in ex:
+                if k != "return":
+                    bad = f"validate ends with {d}"
+                    continue
+                for uid in ("decorators/timing.py::TimeTriggerDecorator.stop", "decorators/timing.py::TimeTriggerDecorator._cycle"):
+                    sent = []
+
+                    def dispatch(i, n, a, k2, c2, o, sent=sent):
+                        d0 = a[0] if a else None
+                        tt = d0.get(Const("trigger_time")) if isinstance(d0, DictV) else None
+                        sent.append(tt.v if isinstance(tt, Const) else repr(d0))
+                        return [(c2, NONE)]
+
+                    pol2 = FlowPolicy(program, may_raise_all=False, cancel=False, globals_=glob,
+                                      summaries={"self.dispatch": dispatch, "DispatchData": lambda i, n, a, k2, c2, o: [(c2, a[0] if a else NONE)],
+                                                 "self._cycle_task.cancel": lambda i, n, a, k2, c2, o: [(c2, NONE)]})
+                    h2 = dict(c.heap)
+                    h2["dm.status"] = Sym(("clsattr", "DecoratorManagerStatus", "STOPPED"))  # the cycle's loop is not entered: only its start-up step is looked at
+                    h2["self._cycle_task"] = NONE
+                    run_flow(program, uid, pol2, args={"self": ObjV("self", "TimeTriggerDecorator")}, heap=h2)
+                    seen += [x for x in sent if x in ("startup", "shutdown")]
+            if mgr == "WaitUntilDecoratorManager":
+                want = []
+            else:
+                want = (["shutdown"] if "shutdown" in spec else []) + (["startup"] if ("startup" in spec or not spec) else [])
+            if bad is None and sorted(seen) != sorted(want):
+                bad = f"occurrences {sorted(seen)} are dispatched, specified {sorted(want)}"
+            what = "task.wait_until" if mgr == "WaitUntilDecoratorManager" else "@time_trigger of a function"
+            ctx.check(bool(ex) and bad is None, rid, V, f"{what} with time_trigger={spec}", msg=f"{what}, time_trigger={spec}: {bad or 'no exit'}"
+                      + (" - the wait returns a start-up 'trigger' at once, or a 'shutdown' occurrence is dispatched from the wait's own stop (which stops it again: unbounded recursion, the "
+                         "remaining listeners of a cancelled wait are never released)" if mgr == "WaitUntilDecoratorManager" else ""),
+                      key=f"wait words {mgr} {spec}", node=program.func(V), rel="decorators/timing.py")
+
+
+def none_argument_table(ctx, program, rid):
+    from ..absint import ClassV
+    uid = "decorator.py::DecoratorRegistry.wait_until"
+    names = ("state_trigger", "time_trigger", "event_trigger")
+    for given in ({"event_trigger": "ev", "state_trigger": None, "time_trigger": None}, {"event_trigger": "ev"}, {"state_trigger": None, "event_trigger": None, "timeout": None}):
+        made = []
+
+        def construct(i, n, a, k, c, o, made=made):
+            made.append((n, a[0] if a else None))
+            return [(c, ObjV(f"dec{len(made)}", "TriggerDecorator"))]
+
+        summ = {"WaitUntilDecoratorManager": lambda i, n, a, k, c, o: [(c, ObjV("dm", "WaitUntilDecoratorManager"))], "issubclass": lambda i, n, a, k, c, o: [(c, Const(True))],
+                "dec_class.kwargs_schema.schema.keys": lambda i, n, a, k, c, o: [(c, ListV((), "list"))], "dec_class": construct,
+                "dm.add": lambda i, n, a, k, c, o: [(c.hset("$added", Const(c.heap.get("$added", Const(0)).v + 1)), NONE)],
+                "dm.validate": lambda i, n, a, k, c, o: [(c, NONE)], "dm.start": lambda i, n, a, k, c, o: [(c, NONE)], "dm.stop": lambda i, n, a, k, c, o: [(c, NONE)],
+                "dm.get_decorators": lambda i, n, a, k, c, o: [(c, ListV(tuple(Const(j) for j in range(c.heap.get("$added", Const(0)).v)), "list"))],
+                "dm.wait_until": lambda i, n, a, k, c, o: [(c, Sym(("wait result",)))]}
+        pol = FlowPolicy(program, may_raise_all=False, cancel=False, summaries=summ, globals_={"TriggerDecorator": ClassV("TriggerDecorator")})
+        pol.loop_unroll = 6
+        heap = {"DecoratorRegistry._decorators": DictV([(Const(nm), Sym(("class", nm))) for nm in names]), "dm.status": Sym(("clsattr", "DecoratorManagerStatus", "STOPPED"))}
+        out = run_flow(program, uid, pol, args={"cls": ClassV("DecoratorRegistry"), "ast_ctx": ObjV("actx", "AstEval"), "_arg": ListV((), "tuple"),
+                                                  "kwargs": DictV([(Const(k), Const(v)) for k, v in given.items()])}, heap=heap)
+        ex = exits(out)
+        want = sum(1 for k, v in given.items() if k in names and v is not None)
+        bad = None
+        for k, c, d in ex:
+            if k != "return":
+                bad = f"ends with {d}"
+            elif want == 0 and c.env.get("$ret") == Sym(("wait result",)) and given.get("timeout") is None:
+                bad = "waits although no trigger and no timeout is given (the wait never returns); specified {'trigger_type': 'none'}"
+        if bad is None and len(made) != want:
+            bad = f"{len(made)} trigger decorator(s) built ({[repr(m[1]) for m in made]}), specified {want}: a None argument is wrapped into [None] and rejected by the decorator's validation"
+        ctx.check(bool(ex) and bad is None, rid, uid, f"wait_until({given})", msg=f"task.wait_until(**{given}) (new subsystem): {bad or 'no exit'}", key=f"none arguments {sorted(given.items(), key=str)}",
+                  node=program.func(uid), rel="decorator.py")
